@@ -560,11 +560,13 @@ def _unglobal(t):
 
 @PROP.obligation('C16.public-path', canaries=[
     mut.replace_expr('keys', 'HDKey.subkey_for_path', 'first_public or not key.is_private', '(first_public and not hardened) or not key.is_private', 'hardened levels after M derived privately'),
+    mut.replace_expr('keys', 'HDKey.subkey_for_path', 'first_public and key.is_private', 'False', 'bare path M hands back the private key'),
 ])
 def public_path(ctx):
     """HDKey.subkey_for_path on a PRIVATE key with a path that starts with M (public derivation): evaluated for M/0, M/0/1, M/0' and
     M/44'/0'/0' - the result is produced by child_public at the first level and never by child_private, and a hardened level raises; no
-    path that starts with M may hand back a key that was derived privately."""
+    path that starts with M may hand back a key that was derived privately. The bare path M (the public master itself) gives the result of
+    .public(), not the private key object."""
     q = 'keys:HDKey.subkey_for_path'
     fn = ctx.repo.func(q)
 
@@ -578,7 +580,7 @@ def public_path(ctx):
         if name == 'key_type' and t == ('var', 'self'):
             return 'bip32'
         return NotImplemented
-    for path, want in ((['M', '0'], 'public'), (['M', '0', '1'], 'public'), (['M', "0'"], 'raise'), (['M', "44'", "0'", "0'"], 'raise'), (['m', "0'", '1'], 'private')):
+    for path, want in ((['M', '0'], 'public'), (['M', '0', '1'], 'public'), (['M', "0'"], 'raise'), (['M', "44'", "0'", "0'"], 'raise'), (['m', "0'", '1'], 'private'), (['M'], 'public')):
         it = Interp(ctx.repo, 'keys', self_cls='keys:HDKey', attr_hook=attr_hook)
         exits = it.run_function(fn, {'self': S(('var', 'self')), 'path': list(path), 'network': None})
         rets = [e for e in exits if e.kind == 'return']
@@ -586,10 +588,12 @@ def public_path(ctx):
             got = 'raise'
         else:
             chain = [s_[2] for s_ in subterms(('w', term(rets[-1].value))) if isinstance(s_, tuple) and s_ and s_[0] == 'mcall' and s_[2] in ('child_public', 'child_private')]
-            got = 'private' if 'child_private' in chain else ('public' if chain else 'self')
+            top = term(rets[-1].value)
+            stripped = isinstance(top, tuple) and top and top[0] == 'mcall' and top[2] == 'public' and len(rets) == 1
+            got = 'private' if 'child_private' in chain else ('public' if chain or stripped else 'self')
         ctx.saw("private key, path %s -> %s" % ('/'.join(path), got))
         if want in ('public', 'raise') and got in ('private', 'self'):
-            ctx.violate(q, 'path %s on a private key returns a key derived with child_private' % '/'.join(path), fn,
+            ctx.violate(q, 'path %s on a private key returns %s' % ('/'.join(path), 'the private key object itself' if got == 'self' else 'a key derived with child_private'), fn,
                         "subkey_for_path(\"M/44'/0'/0'\"), the usual account-level xpub request, returns the unstripped private child key")
         elif got != want:
             ctx.violate(q, 'path %s on a private key gives %s, expected %s' % ('/'.join(path), got, want), fn)
